@@ -39,6 +39,28 @@ CONDS = ['x == @K', 'x > @K', 'n > @K', 'b', 'len(xs) > @K', 'not b and x < @K']
 FEATURES = gen.ALL_FEATURES - {'undef', 'try', 'raise', 'lambda', 'compr'}
 
 EXTRA = [
+    ('er:callee_called_with_keywords', '''def lookup(table, key, default=0):
+  value = table[key]
+  if value > default:
+    return value
+  return default
+
+def scale(p, *, factor):
+  r = p * factor
+  if r > 4:
+    raise UErr('scale')
+  return r
+
+def f(x, n, b, xs):
+  table = {0: 1, 1: 5}
+  a = 0
+  for i in range(n):
+    a = a + lookup(table, key=i, default=x)
+    if b:
+      a = a + scale(i, factor=x)
+  a = a + lookup(table=table, key=x)
+  return a
+'''),
     ('er:decorators_spanning_lines', '''def deco(*a, **k):
   def wrap(fn):
     return fn
